@@ -342,8 +342,8 @@ def check_generators(p, r):
     # ---- names → generators
     key = f'{ges.key}::strategy-table'
     table = None
-    for n in walk_no_nested(ges.node):
-        if isinstance(n, ast.Assign) and isinstance(n.value, ast.Dict):
+    for n in list(walk_no_nested(ges.node)) + list(m.tree.body):
+        if isinstance(n, ast.Assign) and isinstance(n.value, ast.Dict) and table is None:
             table = {ast.literal_eval(k): ast.unparse(v) for k, v in zip(n.value.keys, n.value.values) if isinstance(k, ast.Constant)}
     ok = table is not None and table.get('ROUND_ROBIN') == 'RoundRobin_edge_selector' and table.get('RANDOM') == 'Random_edge_selector'
     rejects = any(isinstance(n, ast.Raise) for n in walk_no_nested(ges.node))
@@ -374,9 +374,10 @@ def round_robin_shape(fn):
     i = ast.unparse(init[0].targets[0])
     if not (isinstance(init[0].value, ast.Constant) and init[0].value.value == 0):
         return f'the counter starts at {ast.unparse(init[0].value)}, not at 0'
-    ed = edges_binding(fn)
-    if ed is None:
+    eds = edge_list_texts(fn)
+    if not eds:
         return 'the edge list is not read from the node with getattr(node, f"{edge_type}_edges")'
+    ed = sorted(eds)[0]
     lb = loops[0].body
     ys = [k for k, n in enumerate(lb) if isinstance(n, ast.Expr) and isinstance(n.value, ast.Yield)]
     ups = [k for k, n in enumerate(lb) if isinstance(n, (ast.Assign, ast.AugAssign)) and ast.unparse(n.targets[0] if isinstance(n, ast.Assign) else n.target) == i]
@@ -388,21 +389,36 @@ def round_robin_shape(fn):
         return 'the counter is advanced before it is yielded (the cycle starts at 1)'
     v = lb[ups[0]].value
     ok = isinstance(v, ast.BinOp) and isinstance(v.op, ast.Mod) and isinstance(v.left, ast.BinOp) and isinstance(v.left.op, ast.Add) \
-        and {ast.unparse(v.left.left), ast.unparse(v.left.right)} == {i, '1'} and ast.unparse(v.right) == f'len({ed})'
+        and {ast.unparse(v.left.left), ast.unparse(v.left.right)} == {i, '1'} and any(ast.unparse(v.right).replace(' ', '') == f'len({e})' for e in eds)
     if not ok:
         return f'successor is `{ast.unparse(v)}`, expected ({i} + 1) % len({ed})'
     return None
 
 
-def random_shape(fn):
+def edge_list_texts(fn):
+    """the spellings under which the node's edge list may appear: a name bound to getattr(node, f"{edge_type}_edges") or that call itself"""
+    out = set()
     ed = edges_binding(fn)
-    if ed is None:
+    if ed is not None:
+        out.add(ed)
+    node_par = fn.node.args.args[0].arg
+    for n in walk_no_nested(fn.node):
+        if isinstance(n, ast.Call) and isinstance(n.func, ast.Name) and n.func.id == 'getattr' and len(n.args) == 2 and isinstance(n.args[0], ast.Name) \
+                and n.args[0].id == node_par and isinstance(n.args[1], ast.JoinedStr) and ast.unparse(n.args[1]) in ("f'{edge_type}_edges'", 'f"{edge_type}_edges"'):
+            out.add(ast.unparse(n).replace(' ', ''))
+    return out
+
+
+def random_shape(fn):
+    eds = edge_list_texts(fn)
+    if not eds:
         return 'the edge list is not read from the node with getattr(node, f"{edge_type}_edges")'
     ys = [n for n in walk_no_nested(fn.node) if isinstance(n, ast.Yield)]
     if len(ys) != 1:
         return 'expected one yield'
     v = ys[0].value
     t = ast.unparse(v).replace(' ', '')
-    if t in (f'random.randint(0,len({ed})-1)', f'random.randrange(len({ed}))', f'random.randrange(0,len({ed}))'):
+    ed = sorted(eds)[0]
+    if any(t in (f'random.randint(0,len({e})-1)', f'random.randrange(len({e}))', f'random.randrange(0,len({e}))') for e in eds):
         return None
     return f'draws `{ast.unparse(v)}`, expected random.randint(0, len({ed}) - 1) from the module-level generator'
